@@ -779,6 +779,17 @@ def gen_search(rng):
     inp.update(which=rng.choice(["uniform", "sobol", "halton", "lhs", "rejection", "padding", "hitandrun"]), n=rng.randint(1, 12),
                q=D["q"] if rng.random() < 0.6 else face_point(rng, D),   # the chain may start on a face of the polytope
                skip=rng.randint(0, 50), qseed=rng.randrange(10**6))
+    if inp["which"] == "padding":
+      # the padding fallback: rejection sampling must give up (or find only part of the points) for it to run at all, so some of the
+      # polytopes carry a slab through the interior point q so thin that the default number of trials finds (almost) nothing; the start of
+      # the chain is then the caller's interior point, or omitted (the sampler computes a Chebyshev centre of its own)
+      inp["x0_given"] = rng.random() < 0.5
+      if rng.random() < 0.6 and D["scale"] >= 0.5:   # (an inscribed radius below 1e-8 is "degenerate" for the library: keep the slab above it)
+        dim = len(D["bounds"])
+        w = [rng.choice([-1, 1]) * rng.uniform(0.5, 2) if j < 2 or rng.random() < 0.5 else 0.0 for j in range(dim)]
+        r = sum(wi * qi for wi, qi in zip(w, D["q"]))
+        half = rng.uniform(1.5e-7, 6e-7) * max(abs(x) for x in w)
+        inp.update(cons=list(D["cons"]) + [(w, r - half), ([-x for x in w], -r - half)], q=D["q"], thin=half)
   elif kind == "cheby":
     inp.update(q=D["q"])
   elif kind == "cheby_bad":
@@ -906,7 +917,10 @@ def _oracle(kind, inp, dm, smp, geo, bounds, cons):
       out, ok = smp.generate_uniform_random_points_rejection_sampling(n, B, A, b, rejection_count=20000)
       return _check_points(kind, inp, out, n if ok else None, bounds, cons)
     if which == "padding":
-      out, ok = smp.generate_uniform_random_points_rejection_sampling_with_hitandrun_padding(n, B, A, b, numpy.array(inp["q"]))
+      x0 = numpy.array(inp["q"]) if inp.get("x0_given", True) else None
+      if inp.get("thin") and (cheby_reference(H)[1] or 0.0) < 2e-8:
+        return None     # degenerate for the library (inscribed radius below its 1e-8 threshold): outside "feasible set"
+      out, ok = smp.generate_uniform_random_points_rejection_sampling_with_hitandrun_padding(n, B, A, b, x0)
       return _check_points(kind, inp, out, n, bounds, cons)
     out = smp.generate_hitandrun_random_points(n, numpy.array(inp["q"]), A, b)
     return _check_points(kind, inp, out, n, bounds, cons)
